@@ -112,7 +112,8 @@ def gen_cases(ctx):
              "imin": imin, "imax": imax, "order": order, "kclass": kclass, "w": w.tolist(),
              "mode": str(rng.choice(["random", "random", "feasible"])),
              "labels": ["mono:" + mode, "mdom:" + mk, "rdom:" + rk, "norm:%s" % order],
-             "exec": modes.pick(rng, (0.7, 0.3, 0.0), allow=("eager", "graph"))}
+             "exec": modes.pick(rng, (0.7, 0.3, 0.0), allow=("eager", "graph")),
+             "dtype": "float64" if rng.rand() < .12 else "float32"}
     else:
       nb = int(rng.randint(1, 9))
       pairs, gk = ([], "none")
@@ -129,7 +130,8 @@ def gen_cases(ctx):
              "omin": omin, "omax": omax, "kclass": kclass, "w": w.tolist(),
              "mode": str(rng.choice(["random", "random", "feasible"])),
              "labels": ["graph:" + gk, "bounds:" + b],
-             "exec": modes.pick(rng, (0.7, 0.3, 0.0), allow=("eager", "graph"))}
+             "exec": modes.pick(rng, (0.7, 0.3, 0.0), allow=("eager", "graph")),
+             "dtype": "float64" if rng.rand() < .12 else "float32"}
 
 
 def lin_violation(case, w):
@@ -187,7 +189,7 @@ def _lin_feasible(rng, case):
 def run_case(ctx, case):
   tf, lin, cat = _ensure()
   ctx.cls("kind:" + case["kind"], "units:%d" % case["units"], "weights:" + case["kclass"], "mode:" + case["mode"], *case["labels"])
-  ctx.cls("exec:" + case.get("exec", "eager"))
+  ctx.cls("exec:" + case.get("exec", "eager"), "dtype:" + case.get("dtype", "float32"))
   if case["kind"] == "linear":
     return _run_linear(ctx, case, tf, lin)
   return _run_categorical(ctx, case, tf, cat)
@@ -204,6 +206,7 @@ def _run_linear(ctx, case, tf, lin):
       range_dominances=[tuple(p) for p in case["rdom"]] or None,
       input_min=case["imin"], input_max=case["imax"], normalization_order=case["order"])
   ex = case.get("exec", "eager")
+  w = w.astype(case.get("dtype", "float32"))
   out = modes.call(tf, ex, c, tf.constant(w)).numpy()
   site = "LinearConstraints.__call__"
   ok_fin = bool(np.all(np.isfinite(out)))
@@ -284,6 +287,7 @@ def _run_categorical(ctx, case, tf, cat):
   c = cat.CategoricalCalibrationConstraints(output_min=omin, output_max=omax,
                                             monotonicities=[tuple(p) for p in case["pairs"]] or None)
   ex = case.get("exec", "eager")
+  w = w.astype(case.get("dtype", "float32"))
   out = modes.call(tf, ex, c, tf.constant(w)).numpy()
   site = "CategoricalCalibrationConstraints.__call__"
   scale = core.scale_of(w, out)
